@@ -2,13 +2,19 @@ package main
 
 import (
 	"bytes"
+	"context"
+	"errors"
 	"fmt"
+	"io"
 	"math/rand"
+	"net"
 	"runtime"
 	"runtime/debug"
 	"sync"
+	"time"
 	"unsafe"
 
+	"github.com/smallnest/rpcx/client"
 	"github.com/smallnest/rpcx/protocol"
 	"github.com/smallnest/rpcx/util"
 )
@@ -164,7 +170,23 @@ func c20Alias(o *Out, r *rand.Rand) {
 		data := randBytes(r, []int{0, 1, 10, 100, 1000, 1100, 5000, 70000}[r.Intn(8)])
 		var what string
 		var got []byte
-		switch r.Intn(4) {
+		switch r.Intn(5) {
+		case 4:
+			// other library activity between the holds: a client sends a request of about this size – over a
+			// connection that takes it, or one whose Write fails (the request frame goes back to the pool on
+			// both paths, exactly once)
+			fail := r.Intn(3) != 0
+			what = "ClientSend.ok"
+			if fail {
+				what = "ClientSend.write-fails"
+			}
+			c20ClientSend(o, data, fail)
+			o.Eval(fmt.Sprintf("alias %s %d", what, len(data)), true)
+			o.Count("alias." + what)
+			if !check(what) {
+				return
+			}
+			continue
 		case 0:
 			what = "Zip"
 			z, err := util.Zip(data)
@@ -263,4 +285,67 @@ func safeGet(o *Out, p *util.LimitedPool, min, max, n int) (buf *[]byte) {
 		}
 	}()
 	return p.Get(n)
+}
+
+// sinkConn: a connection that never delivers anything and either swallows every write or fails it
+type sinkConn struct {
+	fail   bool
+	closed chan struct{}
+	once   sync.Once
+}
+
+func (c *sinkConn) Read(b []byte) (int, error) { <-c.closed; return 0, io.EOF }
+func (c *sinkConn) Write(b []byte) (int, error) {
+	if c.fail {
+		return 0, errors.New("verif: broken pipe")
+	}
+	return len(b), nil
+}
+func (c *sinkConn) Close() error                       { c.once.Do(func() { close(c.closed) }); return nil }
+func (c *sinkConn) LocalAddr() net.Addr                { return &net.TCPAddr{} }
+func (c *sinkConn) RemoteAddr() net.Addr               { return &net.TCPAddr{} }
+func (c *sinkConn) SetDeadline(t time.Time) error      { return nil }
+func (c *sinkConn) SetReadDeadline(t time.Time) error  { return nil }
+func (c *sinkConn) SetWriteDeadline(t time.Time) error { return nil }
+
+func init() {
+	client.ConnFactories["verifsink"] = func(c *client.Client, network, address string) (net.Conn, error) {
+		return &sinkConn{fail: address == "fail", closed: make(chan struct{})}, nil
+	}
+}
+
+// c20ClientSend: one Go call (and, sometimes, one SendRaw) of a real client over a sinkConn
+func c20ClientSend(o *Out, data []byte, fail bool) {
+	opt := client.DefaultOption
+	opt.SerializeType = protocol.SerializeNone
+	c := client.NewClient(opt)
+	addr := "ok"
+	if fail {
+		addr = "fail"
+	}
+	if err := c.Connect("verifsink", addr); err != nil {
+		o.Note("c20: sink client did not connect: %v", err)
+		return
+	}
+	done := make(chan *client.Call, 1)
+	var reply []byte
+	c.Go(context.Background(), "S", "M", data, &reply, done)
+	if fail {
+		select {
+		case <-done:
+		case <-time.After(2 * time.Second):
+			o.Note("c20: a call whose write failed did not complete within 2 s")
+		}
+		if len(data)%2 == 0 {
+			m := protocol.NewMessage()
+			m.SetMessageType(protocol.Request)
+			m.SetSeq(uint64(len(data)) + 7)
+			m.ServicePath, m.ServiceMethod = "S", "M"
+			m.Payload = data
+			ctx, cancel := context.WithTimeout(context.Background(), 2*time.Second)
+			c.SendRaw(ctx, m)
+			cancel()
+		}
+	}
+	c.Close()
 }
